@@ -648,7 +648,14 @@ where
                     self.found = MatchState::Found(Match::Ident(current.span, id, typ.clone()));
                 }
             }
-            Expr::Array(ref array) => self.visit_one(&*array.exprs),
+            Expr::Array(ref array) => {
+                // As for `()`: there is nothing inside `[]` to descend into
+                if array.exprs.is_empty() {
+                    self.found = MatchState::Found(Match::Expr(current));
+                } else {
+                    self.visit_one(&*array.exprs)
+                }
+            }
             Expr::Record {
                 ref base,
                 typ: ref record_type,
